@@ -264,8 +264,13 @@ class Env:
         if unit is not None and node["type"] in ("bool", "str"):
             raise Unspecified("unit on a bool/str assignment")
         v = cast(node["type"], lit)
-        if v is None and (unit is not None or node["dims"] is not None):
-            raise Unspecified("none with a unit, or none for an array node")
+        if v is None and node["dims"] is not None:
+            raise Unspecified("none for an array node")
+        if v is None and unit is not None:
+            # 'a = none cm': no value; the unit must still fit the node's
+            self.need_unit(unit)
+            if node["unit"] is None or self.units.dims(unit) != self.units.dims(node["unit"]):
+                raise Unspecified("none with a unit of another dimension")
         if node["type"] in ("int", "float"):
             v = self.convert(v, unit, node["unit"], node["path"])
             if node["type"] == "int" and not all_integral(v):
@@ -505,6 +510,7 @@ class Env:
             node = copy.deepcopy(rnode)
             node["path"] = path
             node["modified"] = False
+            node["imported"] = True
             self.nodes[path] = node
             self.last_new = path
             made.append(path)
